@@ -83,6 +83,19 @@ CLAIMED["C03"] = (
     "DESIGN.md section 3, C03",
 )
 
+CLAIMED["C14"] = (
+    "syntax/type-level copy-only dataflow rules on the lexical indexer + structural rules on the embedded Rego location()/error()/trace() helpers parsed with OPA's parser",
+    "Decides that locations are copied and never computed: one id serves as index key, membership test and file-lookup argument; range and uri are stored unchanged; the store is conditional on node membership only; all source maps and entries are visited; multi-valued properties are read through the single-or-array helper; in the embedded Rego the four numbers are to_number(parts[0..3]) in the documented order without arithmetic and the with/without-location variants are complementary. Right level: 'exactly the numbers recorded' for all magnitudes is a copy-only property of the code shape.",
+    "AMF's range syntax and regex.find_n/to_number semantics are trusted. " + TRUST,
+    "DESIGN.md section 3, C14",
+)
+CLAIMED["C05"] = (
+    "must-pass-through rule on go/ssa (indexer applied unconditionally to Flatten(decoded, ctx = {}, default options)) + shape-exhaustiveness of type switches + iteration-source rule on the embedded Rego parsed with OPA's parser",
+    "The equivalence of serialisations is json-gold's algorithm on runtime values and is NOT decided. Decided is the repository's share, each a necessary condition: every document reaches the policy only through Flatten with an empty non-nil context and unmodified default options, followed unconditionally by the indexer; the indexer and its helpers handle every shape compaction leaves open (@type string/array, single object/array, @graph object/empty array); iterated property values pass through nodes_array in the embedded Rego.",
+    "json-gold implements JSON-LD flattening/compaction correctly (blank-node labels, @base, duplicate elimination): trusted base, the dominant part of this property. " + TRUST,
+    "DESIGN.md section 3, C05",
+)
+
 # properties without a check yet (or declined), with the reason
 NOT_APPLICABLE = {
 }
